@@ -37,8 +37,11 @@ def wl_cbf(ctx, rng, case):
         ctx.count("cases_with_coinciding_positions_inside_a_key")
     out = Counter({k: 0 for k in keys})
     removes = 0
-    for step in range(rng.randint(4, 40)):
-        bl.noise_reads(ctx, rng, f, keys)
+    quiet = rng.choice([0, 0, 0, 2, 3, 5])  # a quarter of the histories: oracles only after every 2nd..5th call, nothing reads in between
+    nsteps = rng.randint(4, 40)
+    for step in range(nsteps):
+        if not quiet:
+            bl.noise_reads(ctx, rng, f, keys)
         r = rng.random()
         live = [k for k in keys if out[k] > 0]
         if r < 0.5 or not live:
@@ -99,6 +102,9 @@ def wl_cbf(ctx, rng, case):
             ctx.check(bytes(f) == before, f"removing a key reported absent changed the filter (step {step})", key=k)
             ctx.count("absent_removals")
         where = f"after step {step} ({case.ops[-1]})"
+        if quiet and step % quiet and step != nsteps - 1:
+            ctx.count("steps_without_any_read")
+            continue
         for k in ctx.alternating(keys):
             ctx.counters["oracle_evaluations"] += 1
             c = f.check(k)
